@@ -4,6 +4,7 @@ import (
 	"fmt"
 	"reflect"
 	"strings"
+	"sync"
 
 	"github.com/gopacket/gopacket"
 	"github.com/gopacket/gopacket/layers"
@@ -142,12 +143,17 @@ func c01OtherReaders(l gopacket.Layer) {
 		if strings.HasPrefix(n, "Set") || strings.HasPrefix(n, "Reset") || strings.HasPrefix(n, "Clear") || strings.HasPrefix(n, "Init") || strings.HasPrefix(n, "Add") {
 			continue
 		}
+		c01ReadersMu.Lock()
 		c01Readers[n]++
+		c01ReadersMu.Unlock()
 		v.Method(i).Call(nil)
 	}
 }
 
-var c01Readers = map[string]int{}
+var (
+	c01Readers   = map[string]int{} // the harness's own tally: C02 calls the readers from several goroutines
+	c01ReadersMu sync.Mutex
+)
 
 // c01Bookkeeping checks the error-layer rules (a)-(c); it returns whether the packet reports an error.
 func c01Bookkeeping(p gopacket.Packet) (hasErr bool, key, desc string) {
@@ -309,10 +315,12 @@ func c01Total(c *vlib.Ctx) {
 				}
 				c01One(c, r, t, b, how)
 			}
+			c01ReadersMu.Lock()
 			for n, v := range c01Readers {
 				c.CountIn("second_stage_reader_calls_by_method", n, v)
 				delete(c01Readers, n)
 			}
+			c01ReadersMu.Unlock()
 			c.End()
 		}
 		// every prefix of one seed
